@@ -180,6 +180,10 @@ CM_ATOMS = {
     "tab-intp": ("A_UINT32", "A_INT32", {"cat": "TAB-INTP", "points": [(0, 0), (3, 100), (10, 240)],
                                          "scales": [{"lo": 0, "const": 0}, {"lo": 3, "const": 100},
                                                     {"lo": 10, "const": 240}]}, (0, 10)),
+    "tab-intp-decr": ("A_UINT32", "A_INT32", {"cat": "TAB-INTP",
+                                              "points": [(0, 200), (4, 100), (10, -50)],
+                                              "scales": [{"lo": 0, "const": 200}, {"lo": 4, "const": 100},
+                                                         {"lo": 10, "const": -50}]}, (0, 10)),
     "ratfunc": ("A_UINT32", "A_FLOAT64", {"cat": "RAT-FUNC",
                                           "scales": [{"num": [0, 1], "den": [100], "lo": 0, "hi": 200}],
                                           "inv_scales": [{"num": [0, 100], "den": [1], "lo": -10,
@@ -545,7 +549,7 @@ def atoms(tier, seed):
                                             bytepos=bytepos))
     for enc, unit in (("BCD-P", 4), ("BCD-UP", 8)):
         for bl in ([4, 8, 12, 16] if tier == "quick" else
-                   ([4, 8, 12, 16, 20] if enc == "BCD-P" else [8, 16, 24, 32])):
+                   ([4, 8, 12, 16, 20] if enc == "BCD-P" else [8, 16, 24])):
             if bl % unit:
                 continue
             for bitpos in (0, 4):
